@@ -3,4 +3,4 @@ Require Extraction.
 Require Import ExtrOcamlBasic.
 From DC Require Import Expr.TypeBase Expr.TypeSpec Expr.TypeModel.
 Extraction "types_ex.ml"
-  run_cast_as run_cast_op shown canon_ty print_ty wf_ty code_ok strip_trivia drop_eof parse_dec.
+  run_cast_as run_cast_op shown canon_ty print_ty wf_ty strip_trivia drop_eof parse_dec.
